@@ -69,15 +69,74 @@ def check(models, wordset, tier, seed, known, label, k):
                   distinct=decided, notes=f'{decided} (model, class) pairs were deterministic by the spec and accepted by the builder, hence decided')
 
 
+# ---------------------------------------------------------------- substitution-group members as leaves
+# head h; m substitutes h and is abstract; n substitutes m (concrete); k substitutes n; z is unrelated.  A reference to h admits h, n, k
+# (transitively, through the abstract member), never m itself; a reference to n admits n and k.
+SUBST = {'h': set('hnk'), 'n': set('nk'), 'z': set('z')}
+SUB_GLOBALS = ('<xs:element name="h"/><xs:element name="m" substitutionGroup="h" abstract="true"/><xs:element name="n" substitutionGroup="m"/>'
+               '<xs:element name="k" substitutionGroup="n"/><xs:element name="z"/>')
+SUB_WORDS = cm.words('hmnkz', 3)
+
+
+def sub_models():
+    occ = cm.OCC[:4] + [(0, 2)]
+    for k in ('seq', 'cho'):
+        for o in cm.OCC[:4]:
+            for a, b in (('h', 'z'), ('z', 'h'), ('n', 'z'), ('h', 'n')):
+                if k == 'cho' and {a, b} == {'h', 'n'}: continue       # overlapping choice branches: not deterministic
+                for o1 in occ:
+                    for o2 in occ[:3]:
+                        if (a, b) == ('h', 'n') and o1 != (1, 1): continue     # h{..}, n overlap unless h is consumed exactly once
+                        yield (k, [(a, o1), (b, o2)], o)
+
+
+def sub_in_language(m, w):
+    """the model with every reference replaced by the choice of the elements that may substitute it"""
+    k, leaves, o = m
+    mm = (k, [('cho', [('e', c, (1, 1)) for c in sorted(SUBST[name])], oc) for name, oc in leaves], o)
+    return cm.in_language(mm, w)
+
+
+def sub_eval(args):
+    m, ver = args
+    import xmlschema
+    k, leaves, o = m
+    body = '<xs:%s%s>%s</xs:%s>' % ({'seq': 'sequence', 'cho': 'choice'}[k], cm.occ_attr(o), ''.join(f'<xs:element ref="{n}"{cm.occ_attr(oc)}/>' for n, oc in leaves), {'seq': 'sequence', 'cho': 'choice'}[k])
+    mm = (k, [('cho', [('e', c, (1, 1)) for c in sorted(SUBST[name])], oc) for name, oc in leaves], o)
+    if not cm.upa_ok(mm, '1.0'): return None
+    try: s = _cls(ver)(f'<xs:schema {cm.XS}><xs:element name="r"><xs:complexType>{body}</xs:complexType></xs:element>{SUB_GLOBALS}</xs:schema>')
+    except xmlschema.XMLSchemaException: return None
+    mism = []
+    for w in SUB_WORDS:
+        try: got = s.is_valid(cm.doc(w))
+        except Exception as e: got = 'raised ' + type(e).__name__
+        if got != sub_in_language(m, w): mism.append((w, got))
+    return dict(model=m, ver=ver, mismatches=mism[:6]) if mism else False
+
+
+def check_subst(tier, seed):
+    models = list(sub_models()); sel, exhaustive = part(models, tier, seed, 2)
+    jobs = [(m, ver) for m in sel for ver in ('1.0', '1.1')]
+    res = pmap(sub_eval, jobs)
+    fails = [dict(case=dict(subst=True, model=r['model'], version=r['ver']), observed=dict(mismatches=r['mismatches']), required='is_valid(doc(w)) <=> w in L(m) with every reference read as the choice of its substitutes')
+             for r in res if r]
+    decided = sum(1 for r in res if r is not None)
+    return result('C01.substitution_group_leaves', f'{len(sel)} of {len(models)} two-leaf models over references to a head (abstract intermediate member, two-level chain), a member and an unrelated element x {len(SUB_WORDS)} words x 2 classes',
+                  len(jobs), fails, exhaustive=exhaustive, samples=[dict(model=str(sel[0]))] if sel else [], distinct=decided)
+
+
 def run(tier, seed, open_findings):
     known = load_instances('C01_instances.json') if 'C01-single-particle-group-counter' in open_findings else {}
     out = [check(list(cm.two_level_models()), 2, tier, seed, known, 'C01.two_level_models', 6),
            check(list(cm.two_level_models_rev()), 2, tier, seed, known, 'C01.two_level_models_rev', 6),
-           check(list(cm.variant_models()), 3, tier, seed, known, 'C01.variant_models', 1)]
+           check(list(cm.variant_models()), 3, tier, seed, known, 'C01.variant_models', 1), check_subst(tier, seed)]
     return out
 
 
 def replay(check_name, case):
+    if case.get('subst'):
+        k, leaves, o = case['model']; m = (k, [(n, tuple(oc)) for n, oc in leaves], tuple(o))
+        r = sub_eval((m, case['version'])); return dict(ok=not r, observed=r, required='is_valid(doc(w)) <=> w in L(m)')
     if 'witness_model' in case:
         case = dict(model=case['witness_model'], version=case.get('version', '1.0'), wordset=2)
     m = _tuplify(case['model'])
